@@ -35,7 +35,8 @@ CLAIMS = {
  "C20": dict(
     text="Address.tla enumerates every address form (scheme x host form incl. all IPv6 shapes x brackets x port x client/component) with "
          "the expected observable result; each form is concretised with seeded literals (boundary ports, every port in the thorough "
-         "tier) through NewClientTransport/NewComponentTransport and TLC checks transport kind, dialability, kept host and port.",
+         "tier) through NewClientTransport/NewComponentTransport, NewClient and Component.Resume, and again after live connections to a loopback "
+         "listener (a transport is reused for every reconnection), and TLC checks transport kind, dialability, kept host and port.",
     note="Trusted: TLC, net.SplitHostPort and host string equality computed in the harness. Bare IPv6 followed by :port, other URL "
          "schemes and port 0 are not asserted. DNS SRV lookup in NewClient and cert_checker.go are not driven.",
     technique=TECH),
@@ -115,7 +116,8 @@ CLAIMS = {
     text="Lifecycle.tla models the supervision as implemented: the reconnect loop runs inside the goroutine that detected the loss, failed "
          "attempts leave a teardown reader, one transport is shared; TLC checks at-most-one-loop / one-session-per-loss / post-connect-once / "
          "only-permanent-errors-end-the-loop / stop-returns-run and Loss ~> Session under fairness, shows that the five defects found in the "
-         "code (D6, D12, D27, and the stale-keepalive pair D26/D28) each violate a property in the model, and emits every fault sequence (abrupt / graceful termination, refused, "
+         "code (D6, D12, D27, and the stale-keepalive pair D26/D28) each violate a property in the model (the post-connect callback is a phase "
+         "of its own, losses can fall inside it, a handled loss must have a loop running), and emits every fault sequence (abrupt / graceful termination, refused, "
          "reset, torn-down and credential-rejected attempts, resumption accepted or refused, k losses). A real StreamManager+Client runs each "
          "against the scripted server; TLC judges per round: exactly one new session, no extra connection, post-connect once, receiving and "
          "sending on the new connection, resumed when possible, permanent error ends the loop, retries while refused, Stop returns Run.",
